@@ -30,6 +30,15 @@ def cases(draw):
     prog = draw(S.programs(p))
     if b == "kotlin":
         kotlin_error_attrs(prog)
+    # a third of the programs rename some types for this backend and carry abi_renames: the native mirrors and every declaration
+    # naming them must still resolve (under either the renamed or the Rust name, but consistently)
+    if draw(st.integers(0, 2)) == 0:
+        draw(S.decorate(prog, abi=True, rename=False, disable=False, density=5))
+        for _, it in ir.all_items(prog):
+            # (kotlin applies a struct rename at use sites only: a recorded finding, probed separately)
+            if it["kind"] in ("struct", "enum") and b == "dart" and draw(st.integers(0, 2)) == 0:
+                it["renamed"] = "Renamed" + it["name"]
+                it["attrs"].append('#[diplomat::attr(%s, rename = "%s")]' % (draw(st.sampled_from([b, "*"])), it["renamed"]))
     return b, prog
 
 
@@ -72,7 +81,7 @@ def check_program(art, work, b, prog):
             if it["kind"] == "struct" and it["fields"]:
                 want = ("rec", [abi.abi_type(prog, f[1]) for f in it["fields"]])
                 try:
-                    got = parsed.struct(it["name"])
+                    got = (parsed.struct(it["renamed"]) if it.get("renamed") else None) or parsed.struct(it["name"])
                 except dartkt.ParseError as e:
                     fails.append(("struct-parse", "%s: native mirror of struct %s: %s" % (b, it["name"], e)))
                     continue
@@ -170,12 +179,36 @@ def worker(widx, seed, params):
     return acc.result()
 
 
+def run_probes(art):
+    """the listed C07 findings on their specific inputs"""
+    seen = []
+    work = build.workdir("c07-probes")
+    for f in findings.known_for("C07"):
+        pr = f.get("probe")
+        if not pr:
+            continue
+        entry = os.path.join(work, "lib.rs")
+        open(entry, "w").write(pr["lib_rs"])
+        r = tool.run_backend(art, pr["backend"], entry, os.path.join(work, "out"), config=CONFIGS[pr["backend"]][0])
+        if not r.ok:
+            continue
+        try:
+            parsed = dartkt.Kotlin(r.outdir) if pr["backend"] == "kotlin" else dartkt.Dart(r.outdir)
+            parsed.signature(pr["symbol"])
+        except dartkt.ParseError as e:
+            if pr["expect"] in str(e):
+                seen.append(f["what"])
+    build.rm_workdir(work)
+    return seen
+
+
 def run(ctx):
     n = 150 if ctx.quick else 3000
+    known_seen = run_probes(build.ensure_repo_artifacts())
     m = pbt.run_workers("checks.c07", "worker", 14, ctx.seed, {"n": n})
     cov = {"programs": sum(v for k, v in m["labels"].items() if k.endswith(":ok")), "disagreements_checked": m["evaluations"],
            "evaluations": m["evaluations"], "distinct_nontrivial": m["distinct_nontrivial"], "rule": RULE, "samples": m["samples"], "labels": m["labels"]}
-    return {"coverage": cov, "assumptions": ASSUME, "violations": m["violations"]}
+    return {"coverage": cov, "assumptions": ASSUME, "violations": m["violations"], "known_seen": known_seen}
 
 
 def replay(ctx):
